@@ -3,23 +3,45 @@ import LaunchpadModel.Model.Proto
 /-!
 Driver for C11 (list-based whitelists: membership accounting, capacity, fees). One output line per input line.
 
-Header: `case kind=<plain|flex|tiered|tflex|immutable> uni=<a,b,…>` → `case`
+Header: `case kind=<plain|flex|tiered|tflex|immutable> uni=<a,b,…> …` → `case`
   (`uni` = the addresses every observation probes with `HasMember` & co.)
 
-Ops (`pg` = page size used to walk the `Members` query to exhaustion for the observation):
+Ops (`pg` = page size used to walk the `Members` query to exhaustion for the observation; `tip` / `tip2` = ustars / coins
+of another denom attached to a message that charges nothing):
 * `inst sender= now= funds=<d:a,…|-> limit= whale=<n|-> admins=<a,…> start= end= members=<a:c,…|->
         stages=<s:e,…|-> smembers=<list|list|…  or ~ for no list> pg=`      (always starts from a fresh world)
-* `add sender= now= tip= stage= members=<a:c,…|-> pg=`
-* `rm sender= now= tip= stage= addrs=<a,…|-> pg=`
-* `addstage sender= now= tip= start= end= members= pg=`
-* `rmstage sender= now= tip= stage= pg=`
+* `add sender= now= tip= tip2= stage= members=<a:c,…|-> pg=`
+* `rm sender= now= tip= tip2= stage= addrs=<a,…|-> pg=`
+* `addstage sender= now= tip= tip2= start= end= members= pg=`
+* `rmstage sender= now= tip= tip2= stage= pg=`
 * `inc sender= now= funds= limit= pg=`
-* `env … now= pg= w_admins=<a,…|-> w_start= w_end= w_times=<s:e,…|->`   (witness fields read back from the contract)
+* `env … now= tip= tip2= pg=` / `raw … now= tip= tip2= pg=`   any other message (the model only sees the attached funds)
 * `q now= pg=`                                   observation only
 * `page stage= after=<a|-> limit=<n|->`          one raw `Members` query → `ok <a:c,…>` / `err`
 
+Witness fields appended by the harness to every line but `page` (what the implementation did / reports afterwards):
+`w_res=<1|0>` the call succeeded, `w_adm=<a,…|->` admin list, `w_t=<s:e,…|->` flat: (start,end); tiered: stage windows,
+`w_act=<i|->` index of the active stage (`ActiveStageId`).
+
+## What the model takes from the implementation, and what it checks
+
+The C11 model has no notion of admins or time: every message carries `allowed` (all checks owned by C05/C12/C13 passed).
+This driver PREDICTS `allowed` with a small admin/schedule table of its own (current-code semantics, fed by `w_adm`/`w_t`)
+and runs the model with it. If ok/err then differs from `w_res`, it tries a short, fixed list of alternatives — each one a
+design point C11 does not constrain — and adopts the first that reproduces the implementation's outcome, naming it in the
+DRIFT part of the answer (`adopt=`):
+  more permissive: `gate` (the implementation accepted although the prediction said a non-C11 check fails), `hasfirst`
+  (existing member re-added to a full list accepted), `distinct` (flex instantiate accepted a list whose raw length exceeds
+  the limit but whose distinct members fit);
+  more restrictive: `gate` on `rm`/`rmstage` (their outcome, given valid arguments, is the schedule's), `auth` on `inc` by a
+  non-admin, `whale` on `add` with a mint count above the cap.
+Everything else — capacity, counting, duplicates, membership, fees — must agree exactly or the primary answers differ.
+`HasMember` / `Member` of the tiered kinds are rendered for the stage the implementation says is active (`w_act`); the
+driver's own idea of the active stage goes to the DRIFT part (`act=`).
+
 Answer: `ok <obs>` / `err <obs>`; `<obs>` = `none` while no contract exists, else
-`n= lim= mem=<map|map…> cnt=<c,…|-> has=<1|0|e per uni> sm=<bits|bits…|-> mc=<count|x,…|-> bal= paid= burned= pool=`.
+`n= lim= mem=<map|map…> cnt=<c,…|-> cntl=<c,…|-> has=<1|0|e|- per uni> sm=<bits|bits…|-> asm=<bits,…|-> mc=<count|x|-,…|-> bal= bal2= paid= out=`
+` ## burned= pool= act= inv= smx= adopt=`.
 -/
 open LP LP.Proto LP.WlMembers
 
@@ -27,6 +49,9 @@ structure D where
   kind : Kind := .plain
   uni : List Nat := []
   st : Option WL := none
+  admins : List Nat := []
+  /-- flat kinds: `[(start, end)]`; tiered kinds: the stage windows -/
+  times : List (Nat × Nat) := []
 
 def parseKind (s : String) : Option Kind :=
   match s with
@@ -45,7 +70,33 @@ def parseLists (s : String) : Option (List (List (Nat × Nat))) :=
 
 def bit (o : Option Bool) : String := match o with | some true => "1" | some false => "0" | none => "e"
 
-def renderObs (d : D) (s : WL) (now pg : Nat) : String :=
+/-! ### the driver's own admin / schedule table (prediction of `allowed` only; no theorem depends on it) -/
+
+def GENESIS : Nat := Gen.sg_utils_GENESIS_MINT_START_TIME
+
+def stagesChain : List (Nat × Nat) → Bool
+  | [] => true
+  | s :: rest => decide (s.1 < s.2) && rest.all (fun o => decide (s.2 ≤ o.1)) && stagesChain rest
+
+def validateStages (now : Nat) (ts : List (Nat × Nat)) : Bool :=
+  match ts with
+  | [] => false
+  | s :: _ => decide (ts.length < 4) && decide (s.1 > now) && stagesChain ts
+
+def activeIdx (now : Nat) (ts : List (Nat × Nat)) : Option Nat :=
+  let i := ts.findIdx (fun g => decide (g.1 ≤ now) && decide (now ≤ g.2))
+  if i < ts.length then some i else none
+
+def startOf (d : D) (stage : Nat) : Option Nat :=
+  if d.kind.isTiered then (d.times[stage]?).map (·.1) else (d.times[0]?).map (·.1)
+
+/-! ### observation -/
+
+def validFor (k : Kind) (a : Nat) : Bool := k == .immutable || validAddr a
+
+def bitsOr (s : String) : String := if s.isEmpty then "." else s
+
+def renderObs (d : D) (s : WL) (now pg : Nat) (act : Option Nat) (adopt : String) : String :=
   let k := s.kind
   let nst := s.stages.length
   let maps : List (List Member) :=
@@ -54,27 +105,46 @@ def renderObs (d : D) (s : WL) (now pg : Nat) : String :=
     else [walkPages s 0 pg 100000 none []]
   let mem := if maps.isEmpty then "-" else String.intercalate "|" (maps.map renderPairs)
   let cnt := if k.isTiered then renderNats ((List.range nst).map fun i => (queryStageCount s i).getD 0) else "-"
-  let has := String.join (d.uni.map fun a => bit (queryHasMember s now a))
-  let sm := if k.isTiered then
-      String.intercalate "|" ((List.range (nst + 1)).map fun i => String.join (d.uni.map fun a => bit (queryStageMember s i a)))
+  let cntl := if k.isTiered then renderNats (queryStagesCounts s) else "-"
+  let has := String.join (d.uni.map fun a => if validFor k a then bit (queryHasMember s act a) else "-")
+  let row (i : Nat) (only : Nat → Bool) : String :=
+    String.join ((d.uni.filter only).map fun a => bit (queryStageMember s i a))
+  let sm := if k.isTiered && nst > 0 then String.intercalate "|" ((List.range nst).map fun i => row i (validFor k)) else "-"
+  let asm := if k.isTiered then
+      String.intercalate "," (d.uni.map fun a =>
+        if validFor k a then (match queryAllStageMember s a with
+          | some bs => bitsOr (String.join (bs.map fun b => if b then "1" else "0"))
+          | none => "e") else "-")
     else "-"
-  let mc := if k.isFlex then
-      String.intercalate "," (d.uni.map fun a => match queryMember s now a with | some c => toString c | none => "x")
-    else "-"
-  s!"n={s.numMembers} lim={s.memberLimit} mem={mem} cnt={cnt} has={has} sm={sm} mc={mc} bal={s.bank.bal} paid={s.feesPaid + s.stray} burned={s.bank.burned} pool={s.bank.pool}"
+  let mcOf (a : Nat) : String := match queryMember s act a with | some c => toString c | none => "x"
+  let mc := if k.isFlex then String.intercalate "," (d.uni.map fun a => if validFor k a then mcOf a else "-") else "-"
+  -- outside the projection
+  let myAct := if k.isTiered then renderOpt (activeIdx now d.times) else "-"
+  let invs := d.uni.filter (fun a => !validFor k a)
+  let inv := if invs.isEmpty then "-" else String.intercalate "," (invs.map fun a =>
+      bit (queryHasMember s act a) ++ (if k.isTiered then String.join ((List.range nst).map fun i => bit (queryStageMember s i a)) ++
+        (match queryAllStageMember s a with | some _ => "a" | none => "e") else "") ++ (if k.isFlex then mcOf a else ""))
+  let smx := if k.isTiered then bitsOr (row nst (fun _ => true)) else "-"
+  s!"n={s.numMembers} lim={s.memberLimit} mem={mem} cnt={cnt} cntl={cntl} has={has} sm={sm} asm={asm} mc={mc} bal={s.bank.bal} bal2={s.otherBal} paid={s.feesPaid + s.stray} out={s.bank.burned + s.bank.pool}" ++
+  s!" ## burned={s.bank.burned} pool={s.bank.pool} act={myAct} inv={inv} smx={smx} adopt={adopt}"
 
-def obsOf (d : D) (now pg : Nat) : String :=
+def obsOf (d : D) (now pg : Nat) (act : Option Nat) (adopt : String) : String :=
   match d.st with
   | none => "none"
-  | some s => renderObs d s now pg
+  | some s => renderObs d s now pg act adopt
 
-def execOp (d : D) (op : Op) (now pg : Nat) : D × String :=
-  match d.st with
-  | none => (d, "err none")
-  | some s =>
-    match exec s op with
-    | .ok s' => let d' := { d with st := some s' }; (d', s!"ok {obsOf d' now pg}")
-    | .error _ => (d, s!"err {obsOf d now pg}")
+/-- run the candidates in order; adopt the first whose outcome equals the implementation's (`res`), else the first -/
+def choose (s : WL) (res : Bool) (cands : List (Op × String)) : Except Err WL × String :=
+  let outs := cands.map fun (op, why) => (exec s op, why)
+  let okOf (r : Except Err WL) : Bool := match r with | .ok _ => true | .error _ => false
+  match outs.find? (fun (r, _) => okOf r == res) with
+  | some x => x
+  | none => outs.headD (.error .other, "-")
+
+def finishOp (d : D) (now pg : Nat) (act : Option Nat) (r : Except Err WL × String) : D × String :=
+  match r.1 with
+  | .ok s' => let d' := { d with st := some s' }; (d', s!"ok {obsOf d' now pg act r.2}")
+  | .error _ => (d, s!"err {obsOf d now pg act r.2}")
 
 def stepLine (d : D) (line : String) : D × String :=
   let ws := words line
@@ -84,63 +154,99 @@ def stepLine (d : D) (line : String) : D × String :=
       let k ← (kv ws "kind").bind parseKind
       let u ← natListKv ws "uni"
       pure ({ kind := k, uni := u, st := none }, "case")
-    | some "inst" => do
-      let now ← natKv ws "now"; let pg ← natKv ws "pg"
-      let fu ← pairListKv ws "funds"; let lim ← natKv ws "limit"; let wh ← optNatKv ws "whale"
-      let ad ← natListKv ws "admins"; let st ← natKv ws "start"; let en ← natKv ws "end"
-      let ms ← pairListKv ws "members"; let tg ← pairListKv ws "stages"
-      let sm ← (kv ws "smembers").bind parseLists
-      let m : InstMsg := { self := 1000, now := now, funds := coinsOf fu, memberLimit := lim, whaleCap := wh, admins := ad,
-                           start := st, stop := en, members := ms, stageTimes := tg, stageMembers := sm }
-      match instantiate d.kind m with
-      | .ok s => let d' := { d with st := some s }; pure (d', s!"ok {obsOf d' now pg}")
-      | .error _ => let d' := { d with st := none }; pure (d', "err none")
-    | some "add" => do
-      let se ← natKv ws "sender"; let now ← natKv ws "now"; let tip ← natKv ws "tip"; let sg ← natKv ws "stage"
-      let ms ← pairListKv ws "members"; let pg ← natKv ws "pg"
-      pure (execOp d (.addMembers se now tip sg ms) now pg)
-    | some "rm" => do
-      let se ← natKv ws "sender"; let now ← natKv ws "now"; let tip ← natKv ws "tip"; let sg ← natKv ws "stage"
-      let as ← natListKv ws "addrs"; let pg ← natKv ws "pg"
-      pure (execOp d (.removeMembers se now tip sg as) now pg)
-    | some "addstage" => do
-      let se ← natKv ws "sender"; let now ← natKv ws "now"; let tip ← natKv ws "tip"
-      let st ← natKv ws "start"; let en ← natKv ws "end"
-      let ms ← pairListKv ws "members"; let pg ← natKv ws "pg"
-      pure (execOp d (.addStage se now tip st en ms) now pg)
-    | some "rmstage" => do
-      let se ← natKv ws "sender"; let now ← natKv ws "now"; let tip ← natKv ws "tip"; let sg ← natKv ws "stage"
-      let pg ← natKv ws "pg"
-      pure (execOp d (.removeStage se now tip sg) now pg)
-    | some "inc" => do
-      let se ← natKv ws "sender"; let now ← natKv ws "now"; let fu ← pairListKv ws "funds"; let lim ← natKv ws "limit"
-      let pg ← natKv ws "pg"
-      pure (execOp d (.increaseLimit se now (coinsOf fu) lim) now pg)
-    | some "env" => do
-      let now ← natKv ws "now"; let pg ← natKv ws "pg"
-      match d.st with
-      | none => pure (d, "env none")
-      | some s =>
-        if s.kind == .immutable then pure (d, s!"env {obsOf d now pg}")
-        else
-          let ad ← natListKv ws "w_admins"; let st ← natKv ws "w_start"; let en ← natKv ws "w_end"
-          let tm ← pairListKv ws "w_times"
-          match exec s (.env ad st en tm) with
-          | .ok s' => let d' := { d with st := some s' }; pure (d', s!"env {obsOf d' now pg}")
-          | .error _ => pure (d, s!"env {obsOf d now pg}")
-    | some "q" => do
-      let now ← natKv ws "now"; let pg ← natKv ws "pg"
-      pure (d, s!"ok {obsOf d now pg}")
     | some "page" => do
       let sg ← natKv ws "stage"; let af ← optNatKv ws "after"; let li ← optNatKv ws "limit"
       match d.st with
       | none => pure (d, "err")
       | some s =>
         if s.kind == .immutable then pure (d, "err")
-        else match queryMembers s sg af li with
-          | some l => pure (d, s!"ok {renderPairs l}")
-          | none => pure (d, "err")
-    | _ => none
+        else
+          let out := match queryMembers s sg af li with
+            | some l => s!"ok {renderPairs l}"
+            | none => "err"
+          -- an invalid `start_after` string: error today; what it should answer is not C11's business
+          match af with
+          | some a => if validAddr a then pure (d, out) else pure (d, s!"page ## {out}")
+          | none => pure (d, out)
+    | some op => do
+      let now ← natKv ws "now"; let pg ← natKv ws "pg"
+      let res := (boolKv ws "w_res").getD false
+      let wadm := (natListKv ws "w_adm").getD []
+      let wt := (pairListKv ws "w_t").getD []
+      let act := ((optNatKv ws "w_act").getD none)
+      let sender := (natKv ws "sender").getD 0
+      let tip : Tip := ⟨(natKv ws "tip").getD 0, (natKv ws "tip2").getD 0⟩
+      let isAdmin := d.admins.contains sender
+      -- the table is refreshed AFTER the op has been decided with the old one
+      let upd (x : D × String) : D × String := ({ x.1 with admins := wadm, times := wt }, x.2)
+      match op with
+      | "inst" =>
+        let fu ← pairListKv ws "funds"; let lim ← natKv ws "limit"; let wh ← optNatKv ws "whale"
+        let ad ← natListKv ws "admins"; let st ← natKv ws "start"; let en ← natKv ws "end"
+        let ms ← pairListKv ws "members"; let tg ← pairListKv ws "stages"
+        let sm ← (kv ws "smembers").bind parseLists
+        let k := d.kind
+        let whaleOk := match k.isFlex, wh with | true, some c => decide (c > lim) | _, _ => true
+        let sched := if k.isTiered then validateStages now tg
+                     else !(decide (st > en) || decide (now ≥ st) || decide (st < GENESIS))
+        let a := ad.all validAddr && whaleOk && sched
+        let mk (al dc : Bool) : InstMsg :=
+          { self := 1000, funds := coinsOf fu, memberLimit := lim, whaleCap := wh, allowed := al, members := ms,
+            nStages := tg.length, stageMembers := sm, distinctCap := dc }
+        let cands : List (InstMsg × String) :=
+          [(mk a false, "-")] ++ (if res then (if a then [] else [(mk true false, "gate")]) ++ [(mk a true, "distinct")] ++
+            (if a then [] else [(mk true true, "gate+distinct")]) else [])
+        let outs := cands.map fun (m, why) => (instantiate k m, why)
+        let okOf (r : Except Err WL) : Bool := match r with | .ok _ => true | .error _ => false
+        let pick := (outs.find? (fun (r, _) => okOf r == res)).getD (outs.headD (.error .other, "-"))
+        let d0 := { d with st := none, admins := wadm, times := wt }
+        match pick.1 with
+        | .ok s => let d' := { d0 with st := some s }; pure (d', s!"ok {obsOf d' now pg act pick.2}")
+        | .error _ => pure (d0, "err none")
+      | "q" => pure (upd (d, s!"ok {obsOf { d with times := wt } now pg act "-"}"))
+      | _ =>
+        match d.st with
+        | none => pure (upd (d, "err none"))
+        | some s =>
+          -- the observation is rendered against the refreshed table (`act=` in the drift part)
+          let fin (r : Except Err WL × String) : D × String := finishOp { d with admins := wadm, times := wt } now pg act r
+          match op with
+          | "add" =>
+            let sg ← natKv ws "stage"; let ms ← pairListKv ws "members"
+            let over := match s.whaleCap with | some c => ms.any (fun m => decide (m.2 > c)) | none => false
+            let cands : List (Op × String) :=
+              [(.addMembers isAdmin false tip sg ms, "-")] ++
+              (if res then (if isAdmin then [] else [(.addMembers true false tip sg ms, "gate")]) ++
+                  [(.addMembers isAdmin true tip sg ms, "hasfirst")] ++
+                  (if isAdmin then [] else [(.addMembers true true tip sg ms, "gate+hasfirst")])
+               else if over then [(.addMembers false false tip sg ms, "whale")] else [])
+            pure (fin (choose s res cands))
+          | "rm" =>
+            let sg ← natKv ws "stage"; let as ← natListKv ws "addrs"
+            let a := isAdmin && (match startOf d sg with | some t => decide (now < t) | none => true)
+            pure (fin (choose s res [(.removeMembers a tip sg as, "-"), (.removeMembers (!a) tip sg as, "gate")]))
+          | "addstage" =>
+            let st ← natKv ws "start"; let en ← natKv ws "end"; let ms ← pairListKv ws "members"
+            let a := isAdmin && decide (d.times.length < 3) && validateStages now (d.times ++ [(st, en)])
+            let cands : List (Op × String) :=
+              [(.addStage a false tip ms, "-")] ++
+              (if res then (if a then [] else [(.addStage true false tip ms, "gate")]) ++ [(.addStage a true tip ms, "hasfirst")] ++
+                  (if a then [] else [(.addStage true true tip ms, "gate+hasfirst")]) else [])
+            pure (fin (choose s res cands))
+          | "rmstage" =>
+            let sg ← natKv ws "stage"
+            let a := isAdmin && (match startOf d sg with | some t => decide (now < t) | none => true)
+            pure (fin (choose s res [(.removeStage a tip sg, "-"), (.removeStage (!a) tip sg, "gate")]))
+          | "inc" =>
+            let fu ← pairListKv ws "funds"; let lim ← natKv ws "limit"
+            let cands : List (Op × String) :=
+              [(.increaseLimit true (coinsOf fu) lim, "-")] ++
+              (if !res && !isAdmin then [(.increaseLimit false (coinsOf fu) lim, "auth")] else [])
+            pure (fin (choose s res cands))
+          | "env" => pure (fin (exec s (.other res tip), "-"))
+          | "raw" => pure (fin (exec s (.other res tip), "-"))
+          | _ => none
+    | none => none
   r.getD (d, "bad-op")
 
 def main : IO Unit := runDriverRaw ({} : D) stepLine
